@@ -316,7 +316,11 @@ def processM2m (D : Decls) (d : Dialect) (fuel : Nat) (st : St d) (e : Entity) (
             match getM2mColumns D d fuel st te r true with
             | .error x => .error x
             | .ok (c2, st) =>
+              let pkLen (n : Name) : Nat := match lookup n st.pk with | some c => c.length | none => 0
               if names c1 == names c2 then err "MappingError" "same-m2m-columns"
+              -- `assert len(m2m_columns_1) == len(reverse.converters)`, `assert len(m2m_columns_2) == len(attr.converters)`
+              -- (user-given columns of the second attribute of a self-referencing pair are not length-checked before)
+              else if c1.length ≠ pkLen e.name ∨ c2.length ≠ pkLen tgt then err "AssertionError" "m2m-columns-count"
               else
                 match addColumns st.schema tn.n true (c1 ++ c2) with
                 | .error x => .error x
